@@ -20,7 +20,8 @@ def oracle(ctx):
     b, corr = _c08.oracle_and_corr(ctx)
     b['failures'] = [f for f in b['failures'] if f.get('signature') != 'fixedstruct:nul-after-each-record']
     ctx._extra_corr = corr
-    return core.merge_oracles([a, b])
+    c = text_oracles.oracle_window_yearless(ctx, ctx.q(9, 60))
+    return core.merge_oracles([a, b, c])
 
 
 def check(ctx):
